@@ -863,6 +863,11 @@ def handle (ts : List String) : String :=
     match runP (pList pOp) rest with
     | some h => encRState (Rtr.run h)
     | none => "bad-op"
+  | "spec" :: "routedcount" :: i :: rest =>
+    -- how many messages the specification routes to client i over the whole history
+    match runP (pList pOp) rest, i.toNat? with
+    | some h, some c => toString (((Spec.Rtr.expectedTrace h).flatten.filter fun t => t == Rtr.Target.cli c).length)
+    | _, _ => "bad-op"
   | "spec" :: "deliveries" :: idx :: rest =>
     match runP (pList pOp) rest, idx.toNat? with
     | some h, some i => String.intercalate " " (((Spec.Rtr.expectedTrace h).getD i []).map encTarget)
